@@ -142,6 +142,15 @@ def cases(rng, tier):
                 for jwk_header in (False, True):
                     for api in ("jws", "jwt"):
                         out.append({"op": "resolver", "alg": alg, "returns": returns, "signed_by": signed_by, "jwk_header": jwk_header, "api": api, "kind": "resolver"})
+    # JSON serializations with an unprotected header: what is signed is the protected header exactly as given, and it is reported back as such
+    for alg in ("HS256", "RS256", "ES256", "EdDSA"):
+        for ser in ("flat", "general"):
+            out.append({"op": "json_headers", "alg": alg, "ser": ser, "kind": "json-headers"})
+    # a general-JSON JWS with one valid signature and one entry the verifier cannot check (unregistered / not allowed alg): "only if every signature verifies"
+    for alg in ("HS256", "ES256"):
+        for bad_alg in ("XX999", "none", "HS512", 5):
+            for order in ("good-first", "bad-first"):
+                out.append({"op": "json_mixed", "alg": alg, "bad_alg": bad_alg, "order": order, "kind": "json-mixed"})
     # EdDSA over both RFC 8037 curves (signature sizes 64 and 114 octets), every serialization
     for crv in ("Ed25519", "Ed448"):
         for ser in ("compact", "flat", "general", "jwt"):
@@ -222,6 +231,29 @@ def impl(c):
     if c["op"] == "hmac":
         import hmac, hashlib
         return {"mac": hmac.new(bytes.fromhex(c["k"]), bytes.fromhex(c["m"]), getattr(hashlib, f"sha{c['bits']}")).hexdigest()}
+    if c["op"] == "json_headers":
+        J = JsonWebSignature()
+        prot, unprot = {"alg": c["alg"], "typ": "JWT"}, {"kid": "k1", "x-note": "unprotected"}
+        hdr = {"protected": dict(prot), "header": dict(unprot)}
+        key, pub = authlib_key(c["alg"], 1, "key", True), authlib_key(c["alg"], 1, "key", False)
+        o = J.serialize_json(hdr if c["ser"] == "flat" else [hdr], b"payload", key)
+        ent = o if c["ser"] == "flat" else o["signatures"][0]
+        signed = json.loads(lenient(ent["protected"].encode()))
+        r = J.deserialize_json(o, pub)
+        h = r["header"] if c["ser"] == "flat" else r["header"][0]
+        return {"signed_protected": signed, "wire_unprotected": ent.get("header"), "reported_protected": dict(h.protected), "reported_unprotected": dict(h.header),
+                "want": [prot, unprot], "ref_ok": bool(R.verify(c["alg"], raw_key(c["alg"]), ent["protected"].encode() + b"." + o["payload"].encode(), lenient(ent["signature"].encode())))}
+    if c["op"] == "json_mixed":
+        J = JsonWebSignature(algorithms=[c["alg"]])
+        key, pub = authlib_key(c["alg"], 1, "key", True), authlib_key(c["alg"], 1, "key", False)
+        o = JsonWebSignature().serialize_json([{"protected": {"alg": c["alg"]}}], b"payload", key)
+        bad = {"protected": R.b64u(json.dumps({"alg": c["bad_alg"]}).encode()).decode(), "signature": R.b64u(b"junk-signature").decode()}
+        sigs = [o["signatures"][0], bad] if c["order"] == "good-first" else [bad, o["signatures"][0]]
+        try:
+            J.deserialize_json({"payload": o["payload"], "signatures": sigs}, pub)
+            return {"accepted": True}
+        except Exception as e:
+            return {"accepted": False, "error": type(e).__name__}
     if c["op"] == "resolver":
         from props import c02
         return c02.impl_extra(dict(c, op="callable"))
@@ -390,7 +422,7 @@ def verify_entries(c, pairs):
 
 
 def model_line(c):
-    if c["op"] in ("hskey", "jwt_reuse", "eddsa_curve", "keyset_rotation", "resolver"):
+    if c["op"] in ("hskey", "jwt_reuse", "eddsa_curve", "keyset_rotation", "resolver", "json_headers", "json_mixed"):
         return None
     if c["op"] == "hmac":
         return {"op": "hmac", "bits": c["bits"], "k": c["k"], "m": c["m"], "key": {"oct": ""}, "headers": {}}
@@ -436,6 +468,21 @@ def ref_key(c):
 def oracle(c, out):
     v = []
     if c["op"] == "hmac":
+        return v
+    if c["op"] == "json_headers":
+        prot, unprot = out["want"]
+        if out["signed_protected"] != prot or out["wire_unprotected"] != unprot:
+            v.append((f"{c['ser']} JSON JWS: the protected segment holds {out['signed_protected']} and the unprotected header {out['wire_unprotected']}, asked for {prot} / {unprot}",
+                      {"alg": c["alg"], "op": "json_headers", "kind": "wrong-content"}))
+        elif out["reported_protected"] != prot or out["reported_unprotected"] != unprot:
+            v.append((f"{c['ser']} JSON JWS: verification reports protected {out['reported_protected']} / unprotected {out['reported_unprotected']}, signed were {prot} / {unprot}",
+                      {"alg": c["alg"], "op": "json_headers", "kind": "wrong-content"}))
+        if not out["ref_ok"]:
+            v.append((f"{c['ser']} JSON JWS is not accepted by the independent verifier", {"alg": c["alg"], "op": "json_headers", "kind": "own-token-refused"}))
+        return v
+    if c["op"] == "json_mixed":
+        if out["accepted"]:
+            v.append((f"general JSON JWS accepted although one of its signatures (alg {c['bad_alg']!r}, {c['order']}) cannot verify", {"alg": c["alg"], "op": "json_mixed", "kind": "accepted-unverified"}))
         return v
     if c["op"] == "resolver":
         want = c["returns"] == "right" and c["signed_by"] == "right"
@@ -530,6 +577,8 @@ def classify(c, out):
         return f"keyset_rotation/{c['how']}"
     if c["op"] == "resolver":
         return "resolver/" + ("accepted" if out.get("accepted") else "refused")
+    if c["op"] in ("json_headers", "json_mixed"):
+        return c["op"] + "/" + c.get("ser", c.get("order", ""))
     if c["op"] == "jwt_reuse":
         return f"jwt_reuse/{c['kform']}/{len(c['order'])}"
     if c["op"] == "hskey":
@@ -544,6 +593,8 @@ def nontrivial(c, out):
         return [c["alg"], c["how"]]
     if c["op"] == "resolver":
         return [c[k] for k in ("alg", "returns", "signed_by", "jwk_header", "api")]
+    if c["op"] in ("json_headers", "json_mixed"):
+        return [c.get(k) for k in ("op", "alg", "ser", "bad_alg", "order")]
     if c["op"] == "jwt_reuse":
         return [c["alg"], c["kform"], c["order"]]
     if c["op"] == "hskey":
